@@ -85,7 +85,7 @@ def build_base(kind, case):
 
 
 WORDS = [[], ["a"], ["b"], ["a", "b"], ["a", "a"], ["b", "a", "b"], ["a", "b", "a"], ["a", "b", "b"], ["a", "a", "b"],
-         ["b", "b"], ["a", "b", "a", "b"]]
+         ["b", "b"], ["a", "b", "a", "b"], ["ab"], ["a", "ab"], ["ab", "b"]]     # "ab": one symbol spelled like two
 
 
 def kind_of(obj):
@@ -447,7 +447,7 @@ def run_history(c, stats):
                 if not OPS.get(k):
                     continue
                 name, other_kind = rng.choice(OPS[k])
-                arg = rng.randrange(11)
+                arg = rng.randrange(14)
                 oi = []
                 if other_kind:
                     cands = [i for i, e in enumerate(pool) if e["kind"] == other_kind]
@@ -624,8 +624,11 @@ def targeted(rng, n):
                     {"target": 10, "op": "minimize", "arg": 0}, {"target": 9, "op": "is_equivalent_to", "others": [10], "arg": 0},
                     {"target": 10, "op": "is_equivalent_to", "others": [0], "arg": 0}, {"target": "R1", "op": "accepts", "arg": 1},
                     {"target": 9, "op": "minimize", "arg": 0}, {"target": "R3", "op": "accepts", "arg": 1}])
+        # a regex over the symbols a, b and ab: words that spell the same text asked of one object
+        out.append([{"target": 2, "op": "accepts", "arg": a} for a in (3, 11, 3, 12, 13, 11, 1, 12)] +
+                   [{"target": 3, "op": "accepts", "arg": a} for a in (11, 3, 13, 12, 3)])
         # feature grammar: the same and other words asked again and again of one object (chart / lexicon state)
-        ws = [rng.randrange(11) for _ in range(12)]
+        ws = [rng.randrange(14) for _ in range(12)]
         out.append([{"target": 11, "op": "contains", "arg": a} for a in ws + ws[:4]])
         # an automaton edited by epsilon moves between queries (closures computed before the edit)
         out.append([{"target": 0, "op": "accepts", "arg": 3}, {"target": 0, "op": "to_deterministic", "arg": 0},
@@ -655,13 +658,13 @@ def targeted(rng, n):
                     {"target": 6, "op": "to_dict", "arg": 0}, {"target": "R3", "mutate": "edit_inner"},
                     {"target": 6, "op": "get_number_transitions", "arg": 0}, {"target": 6, "op": "to_cfg", "arg": 0}])
         # epsilon chain: the closure of the start state changes through edits of edges further down the chain
-        out.append([{"target": 12, "op": "accepts", "arg": rng.randrange(11)}, {"target": 12, "op": "accepts", "arg": 1},
+        out.append([{"target": 12, "op": "accepts", "arg": rng.randrange(14)}, {"target": 12, "op": "accepts", "arg": 1},
                     {"target": 12, "op": "to_deterministic", "arg": 0}, {"target": 12, "mutate": "extend_eps"},
                     {"target": 12, "op": "accepts", "arg": 0}, {"target": 12, "op": "accepts", "arg": 1},
-                    {"target": 12, "op": "accepts", "arg": rng.randrange(11)}, {"target": 12, "op": "is_empty", "arg": 0},
+                    {"target": 12, "op": "accepts", "arg": rng.randrange(14)}, {"target": 12, "op": "is_empty", "arg": 0},
                     {"target": 12, "op": "remove_epsilon_transitions", "arg": 0},
                     {"target": 12, "mutate": "cut_eps_second"}, {"target": 12, "op": "accepts", "arg": 0},
-                    {"target": 12, "op": "accepts", "arg": 1}, {"target": 12, "op": "accepts", "arg": rng.randrange(11)},
+                    {"target": 12, "op": "accepts", "arg": 1}, {"target": 12, "op": "accepts", "arg": rng.randrange(14)},
                     {"target": 12, "op": "to_deterministic", "arg": 0}, {"target": 12, "op": "minimize", "arg": 0},
                     {"target": 12, "op": "get_accepted_words", "arg": 0}])
         # indexed grammar: repeated emptiness, after remove_useless_rules
@@ -686,7 +689,7 @@ def plan(tier, rng, sl, nslices, stats):
 
 
 def fcfg_scripts(rng):
-    ws = [rng.randrange(11) for _ in range(14)]
+    ws = [rng.randrange(14) for _ in range(14)]
     return [{"target": 11, "op": "contains", "arg": a} for a in ws + ws[:5]]
 
 
